@@ -528,6 +528,22 @@ impl<'c, 's> Run<'c, 's> {
         if n0 == 0 {
             return;
         }
+        // W12: a bridge forwards the frame onto this segment under its own SMBus source address and
+        // recomputes the PEC; the MCTP header (source EID) is untouched.  The result is a new, valid frame.
+        if self.ch.chance(rate[F_BRIDGE], 1000) && n0 >= 10 && crate::refmodel::pec_ok(&self.frames[fi].bytes) {
+            self.fault(F_BRIDGE);
+            let a = self.vbyte() & 0x7F;
+            let f = &mut self.frames[fi];
+            f.bytes[3] = (a << 1) | 1;
+            crate::refmodel::fix_pec(&mut f.bytes);
+            f.orig = f.bytes.clone();
+            f.expect = None;
+            if f.origin == Origin::Encoder {
+                f.origin = Origin::Patched;
+            }
+            f.cause_clean = false;
+            self.ev("fault.bridge", &[fi as u64, a as u64], &[]);
+        }
         let mut alters = 0u8;
         let mut burst = false;
         // bias: Set Endpoint ID requests and awaited responses are corrupted more often
